@@ -21,6 +21,10 @@ CLASS_SET = [
     "kio.schema.fetch.v15.request:FetchTopic",
     "kio.schema.fetch.v15.response:FetchResponse",
     "kio.schema.metadata.v5.request:MetadataRequest",
+    # a nullable struct field: the nested reader/writer is cached under a second key (nullable=True)
+    "kio.schema.describe_topic_partitions.v0.request:DescribeTopicPartitionsRequest",
+    # the same class NAME in another (legacy) version: cache keys must be the classes, not their names
+    "kio.schema.fetch.v4.request:FetchRequest",
 ]
 
 
@@ -273,7 +277,10 @@ def fingerprint():
 def abstract_bfs(acc, limit_states=20000):
     """BFS where a state is the history reaching it (rebuilt from a clean start), merged by
     fingerprint.  Every transition executes the real operation and is judged."""
-    L = letters()
+    # over the operations of the first four subjects (the fixpoint of the full six-class alphabet has several
+    # thousand cache-key subsets; the two extra classes are covered by the stateless histories and schedules)
+    allL = letters()
+    L = [op for op in allL if op[0] == "clear" or op[1] < 4]
     clear_caches()
     seen = {fingerprint(): ()}
     frontier = [()]
@@ -424,7 +431,7 @@ def harnesses():
     from kio.serial import entity_reader, entity_writer
 
     S = subjects()
-    A, B, C, D = S
+    A, B, C, D, E, F = S
 
     def w_body(s, i, cold=True):
         def body():
@@ -455,6 +462,8 @@ def harnesses():
         "cold-readers-same-class": (clear_caches, lambda: [r_body(D, 0), r_body(D, 1)], [D.insts[0], D.insts[1]]),
         "cold-nested-vs-parent": (clear_caches, lambda: [w_body(B, 1), w_body(A, 0)], [B.golden[1], A.golden[0]]),
         "cold-writer-vs-reader": (clear_caches, lambda: [w_body(D, 1), r_body(D, 1)], [D.golden[1], D.insts[1]]),
+        "cold-same-name-other-version": (clear_caches, lambda: [w_body(F, 1), w_body(A, 0)], [F.golden[1], A.golden[0]]),
+        "cold-nullable-struct": (clear_caches, lambda: [r_body(E, 1), w_body(E, 0)], [E.insts[1], E.golden[0]]),
         # three threads (thorough only): two writers of one class and a reader of another, warm and cold
         "warm-3-threads": (warm, lambda: [w_body(A, 0), w_body(A, 1), r_body(C, 1)], [A.golden[0], A.golden[1], C.insts[1]]),
         "cold-3-threads": (clear_caches, lambda: [w_body(D, 0), r_body(D, 1), w_body(D, 1)], [D.golden[0], D.insts[1], D.golden[1]]),
@@ -558,7 +567,7 @@ def run_c19(tier):
         run.merge(res)
     # part 1b: abstract-state BFS (in this process)
     acc = Acc()
-    nstates, ntrans, bfs_depth, fix = abstract_bfs(acc, 400 if tier == "quick" else 5000)
+    nstates, ntrans, bfs_depth, fix = abstract_bfs(acc, 2000 if tier == "quick" else 20000)
     run.merge(acc.result())
     # part 2: faults on all classes
     order = list(range(len(all_classes())))
@@ -609,7 +618,7 @@ def run_c19(tier):
     c["schedule_exploration"] = sched_info
     c["rule"] = (
         f"(1) histories over {nl} operations on a colliding class set (FetchRequest v15, its nested FetchTopic "
-        "requested directly, FetchResponse v15, MetadataRequest v5): mkR/mkW/useW/useR (2 values)/failW/failR at "
+        "requested directly, FetchResponse v15, MetadataRequest v5, DescribeTopicPartitionsRequest v0 with a nullable struct, FetchRequest v4 = same name): mkR/mkW/useW/useR (2 values)/failW/failR at "
         "first-middle-last call/badW/badR/clear; stateless: every history up to depth "
         f"{2 if tier == 'quick' else 3} plus every depth-{depth} history ending in a use operation"
         + ("" if tier == "quick" else " (depth 4 over the sub-alphabet of the colliding pair)") + ", each rebuilt "
